@@ -455,7 +455,7 @@ fn canaries(seed: u64, bases: &Bases) -> String {
 fn main() {
     let args: Vec<String> = std::env::args().collect();
     if args.get(1).map(|s| s.as_str()) == Some("--child") && args.len() >= 3 { child_main(&args[2..]); }
-    let mut ctx = Ctx::from_args("C05", 120, 900);
+    let mut ctx = Ctx::from_args("C05", 60, 540);
     let replay = load_replay(&mut ctx);
     let bases = Bases::new(&ctx.out_dir);
     let probe = canaries(ctx.seed, &bases);
